@@ -2934,6 +2934,7 @@ Grammar* IGXMLScanner::loadGrammar(const   InputSource& src
         // Reset some status flags
         fInException = false;
         fStandalone = false;
+        fXMLVersion = XMLReader::XMLV1_0;
         fErrorCount = 0;
         fHasNoDTD = true;
         fSeeXsi = false;
